@@ -24,18 +24,20 @@ MATRIX = ["baseline", "nofeat", "norayon", "pcsaft", "pcsaft_dft", "epcsaft", "g
 class Context:
     def __init__(self, tier):
         self.tier = tier
+        self.config = "full"
         self._extra = {}
 
-    def F(self, config="full"):
-        return facts.load(config)
+    def F(self, config=None):
+        return facts.load(config or self.config)
 
     def configs(self):
         return ["full"] + (MATRIX if self.tier == "thorough" else [])
 
     def extra_evidence(self, prop):
-        F = self.F()
+        F = self.F("full")
         d = {"facts": {"treehash": F.treehash, "files_hashed": F.nfiles, "config": F.config,
-                       "features": F.meta.get("features"), "bodies": F.n_bodies()}}
+                       "features": F.meta.get("features"), "bodies": F.n_bodies()},
+             "cfg_configurations": self.configs()}
         d.update(self._extra)
         return d
 
@@ -197,4 +199,16 @@ PROPERTY_RULES = {
     "C06": [r4, r1_all],
     "C07": [r5, r4],
     "C18": [r4, r16],
+}
+
+
+# rules whose facts do not depend on the cfg configuration (source-level / data-level): run on "full" only
+CFG_INDEPENDENT = {"r13", "r15"}
+
+# witnesses (thorough tier) per property: prefixes of the witness names in engines/witness/src/lib.rs
+WITNESSES = {
+    "C03": ("W1", "W3", "W4"),
+    "C11": ("W2", "W5"),
+    "C04": ("W6",),
+    "C05": ("W6",),
 }
